@@ -719,7 +719,7 @@ func childSetup(e *mon.Env) {
 		root, _ = os.MkdirTemp("", "c42-")
 	}
 	h = &harness{root: root}
-	h.run = &evalrun.Runner{New: newEvaler, Limits: evalrun.Limits{MaxValues: 1000, MaxBytes: 1 << 16, Deadline: 2 * time.Second, Grace: time.Second}}
+	h.run = &evalrun.Runner{New: newEvaler, Limits: evalrun.Limits{MaxValues: 1000, MaxBytes: 1 << 16, Deadline: 15 * time.Second, Grace: 2 * time.Second}}
 }
 
 // fdsUnder lists the open descriptors whose target is below dir.
